@@ -241,14 +241,25 @@ pub fn deliver(sim: &mut Sim, d: &Delivery) -> u64 {
                 .chain(during.iter().filter(|x| x.0 == proto && x.1 == id).map(|x| &x.2))
                 .collect()
         };
-        let allowed_for = |defs: &[&crate::model::TDef], body: usize| -> u64 {
+        let allowed_for = |defs: &[&crate::model::TDef], body: usize, v9_data: bool| -> u64 {
             defs.iter()
                 .map(|d| {
                     let fs = d.all_fields();
+                    if v9_data {
+                        // V9 splits a data flowset into floor(body / record size) records, the
+                        // record size being the sum of the declared lengths (C04); a template
+                        // without any length yields no record at all
+                        let size: usize = fs.iter().map(|f| usize::from(f.len)).sum::<usize>().min(65535);
+                        return if size == 0 { 0 } else { ((body / size) * fs.len()) as u64 };
+                    }
                     // every field of non-zero declared length consumes at least one byte (fixed-size
-                    // types may consume fewer bytes than an odd declared width, never zero)
+                    // types may consume fewer bytes than an odd declared width, never zero); a
+                    // definition without any length is never cached
                     let min: usize = fs.iter().filter(|f| f.len != 0).count();
-                    ((body / min.max(1)) * fs.len()) as u64
+                    if min == 0 {
+                        return 0;
+                    }
+                    ((body / min) * fs.len()) as u64
                 })
                 .max()
                 .unwrap_or(0)
@@ -260,7 +271,7 @@ pub fn deliver(sim: &mut Sim, d: &Delivery) -> u64 {
                         if let v9::FlowSetBody::Data(dt) = &fs.body {
                             let got: u64 = dt.fields.iter().map(|m| m.len() as u64).sum();
                             let body = usize::from(fs.header.length).saturating_sub(4);
-                            let allowed = allowed_for(&tpl_of(crate::model::Proto::V9, fs.header.flowset_id), body);
+                            let allowed = allowed_for(&tpl_of(crate::model::Proto::V9, fs.header.flowset_id), body, true);
                             if got > allowed {
                                 sim.find("C15-more-values-than-the-bytes-can-hold", d.ev, format!("V9 data flowset {} with a {}-byte body yields {} decoded values; its template allows at most {}", fs.header.flowset_id, body, got, allowed));
                             }
@@ -276,7 +287,7 @@ pub fn deliver(sim: &mut Sim, d: &Delivery) -> u64 {
                         };
                         let got: u64 = fields.iter().map(|m| m.len() as u64).sum();
                         let body = usize::from(fs.header.length).saturating_sub(4);
-                        let allowed = allowed_for(&tpl_of(crate::model::Proto::Ipfix, fs.header.header_id), body);
+                        let allowed = allowed_for(&tpl_of(crate::model::Proto::Ipfix, fs.header.header_id), body, false);
                         if got > allowed && opaque_defs {
                             sim.stats.probe("value_bound_not_judged_definition_not_visible");
                         } else if got > allowed {
